@@ -105,9 +105,17 @@ pub(crate) fn assert_farm_asset(
             coin_sent.amount == params.farm_asset.amount,
             ContractError::AssetMismatch
         );
-        // if the farm creation denom and the farm asset denom are different,
-        // ensure only those two assets were sent
-        ensure!(info.funds.len() == 2usize, ContractError::AssetMismatch);
+        // if the farm creation denom and the farm asset denom are different, ensure only those two
+        // assets were sent. If there is no farm creation fee to pay, only the farm asset is expected
+        let expected_coins = if farm_creation_fee.amount.is_zero() {
+            1usize
+        } else {
+            2usize
+        };
+        ensure!(
+            info.funds.len() == expected_coins,
+            ContractError::AssetMismatch
+        );
     } else {
         ensure!(
             params
